@@ -547,6 +547,32 @@ func ruleQuantifierWrapsAtom(c *Ctx, rule string) {
 			n++
 			k++
 			ob := r.Ob(rule, fmt.Sprintf("%s: quantifier #%d repeats the atom it follows, as parsed", fnName(fn), k), c.pos(st.Pos()))
+			// a helper that attaches the quantifier to an atom it is handed: decided at its call sites
+			if prm, isParam := stripIface(st.Val).(*ssa.Parameter); isParam {
+				idx := -1
+				for i, p := range fn.Params {
+					if p == prm {
+						idx = i
+					}
+				}
+				ncall, bad := 0, ""
+				for _, caller := range c.SrcFuncs("ast") {
+					for _, cl := range callsTo(caller, fn) {
+						ncall++
+						if idx < 0 || idx >= len(cl.Call.Args) || !callerAtom(cl.Call.Args[idx], c) {
+							bad = caller.Name() + " passes " + exprStr(cl.Call.Args[idx])
+						}
+					}
+				}
+				if ncall > 0 && bad == "" {
+					ob.OKnt(fmt.Sprintf("the loop body is the helper's parameter; all %d call site(s) pass the atom the parser returned", ncall))
+				} else if ncall == 0 {
+					ob.Und("the loop body is a parameter and no call site was found")
+				} else {
+					ob.Bad("the loop body is a parameter and " + bad + ", which is not the atom the parser returned for the text before the quantifier")
+				}
+				return
+			}
 			if isParsedAtom(st.Val) {
 				ob.OKnt("the loop body is the value returned by the atom parser (wrapped in a primary at most)")
 			} else {
@@ -554,7 +580,7 @@ func ruleQuantifierWrapsAtom(c *Ctx, rule string) {
 			}
 		})
 	}
-	r.Floor(rule, "places where a quantifier gets its body", n, 3)
+	r.Floor(rule, "places where a quantifier gets its body", n, 1)
 }
 
 // isParsedAtomShallow: result #0 of a call to a function of package ast (an atom parser), or a freshly built atom literal.
@@ -660,4 +686,72 @@ func ruleQuantifierCharsAgree(c *Ctx, rule string) {
 	} else {
 		ob.Bad("a quantifier can start with any of " + strings.Join(cs, " ") + ", but " + strings.Join(bad, "; ") + ": text in front of the missing quantifier is taken for plain characters and the quantifier applies to the wrong atom or is matched literally")
 	}
+}
+
+func stripIface(v ssa.Value) ssa.Value {
+	for {
+		switch x := v.(type) {
+		case *ssa.MakeInterface:
+			v = x.X
+			continue
+		case *ssa.ChangeInterface:
+			v = x.X
+			continue
+		}
+		return v
+	}
+}
+
+// callerAtom: at a call site, the argument is an atom as parsed: result #0 of a parse function, a literal built in place, a primary
+// around one of those, or a local variable that only ever holds such values.
+func callerAtom(v ssa.Value, c *Ctx) bool {
+	for d := 0; d < 8; d++ {
+		v = stripIface(v)
+		switch x := v.(type) {
+		case *ssa.Extract:
+			return isParsedAtomShallow(x, c)
+		case *ssa.Alloc:
+			if n, ok := deref(x.Type()).(*types.Named); !ok || n.Obj().Name() != "AstPrimary" {
+				return true
+			}
+			var inner ssa.Value
+			for _, ref := range *x.Referrers() {
+				if fa, ok := ref.(*ssa.FieldAddr); ok {
+					for _, r2 := range *fa.Referrers() {
+						if st, ok := r2.(*ssa.Store); ok && st.Addr == ssa.Value(fa) {
+							inner = st.Val
+						}
+					}
+				}
+			}
+			if inner == nil {
+				return false
+			}
+			v = inner
+			continue
+		case *ssa.UnOp:
+			if a, ok := x.X.(*ssa.Alloc); ok {
+				cnt, all := 0, true
+				for _, ref := range *a.Referrers() {
+					if st, ok := ref.(*ssa.Store); ok && st.Addr == ssa.Value(a) {
+						cnt++
+						if !isParsedAtomShallow(st.Val, c) {
+							all = false
+						}
+					}
+				}
+				return cnt >= 1 && all
+			}
+			return false
+		case *ssa.Phi:
+			for _, e := range x.Edges {
+				if !callerAtom(e, c) {
+					return false
+				}
+			}
+			return len(x.Edges) > 0
+		}
+		return false
+	}
+	return false
 }
